@@ -360,6 +360,17 @@ pub fn build_alphabet(cfgs: &[Cfg], spec: &AlphabetSpec) -> Alphabet {
                 m.req = Some(ip(a));
                 m.serverid = Some(vec![10, 0, 0, 1]);
                 ops.push(Op::Msg(m));
+                // a REQUEST that selects THIS server (server identifier = the receiving address):
+                // the SELECTING form (option 50) and a renewal that carries the identifier as well
+                // (ciaddr set; some clients send it): both name an address
+                let mut m = MsgOp::basic(ci, iface, client, 3);
+                m.req = Some(ip(a));
+                m.serverid = Some(iface.octets().to_vec());
+                ops.push(Op::Msg(m));
+                let mut m = MsgOp::basic(ci, iface, client, 3);
+                m.ciaddr = Some(ip(a));
+                m.serverid = Some(iface.octets().to_vec());
+                ops.push(Op::Msg(m));
             }
         }
     }
@@ -450,19 +461,93 @@ const SCHEMA_V1: &str = "CREATE TABLE leases (
  CREATE TABLE schema_version (key TEXT NOT NULL, version INTEGER NOT NULL, PRIMARY KEY (key));
  INSERT INTO schema_version (key, version) VALUES ('pool', 1);";
 
+/// The lease store of the previous release (schema version 0: no options column, no version table).
+const SCHEMA_V0: &str = "CREATE TABLE leases (address TEXT NOT NULL, chaddr BLOB, clientid BLOB, start INTEGER NOT NULL, expiry INTEGER NOT NULL, PRIMARY KEY (address));";
+
+/// The schema exactly as the code under test creates it on a fresh store: a real Pool is opened
+/// once on an empty scratch file, and the SQL text of every object it created (sqlite_master) plus
+/// the rows of its version table are read back.  Every store the search builds is created from
+/// this text, so a store "holding exactly these rows" is the store the real code would have made,
+/// not the harness's idea of it.  Falls back to the harness's copy of the schema when the real
+/// set-up fails (that failure is C18's subject, not this engine's).
+fn real_schema() -> &'static str {
+    static T: std::sync::OnceLock<String> = std::sync::OnceLock::new();
+    T.get_or_init(|| {
+        let path = format!("/dev/shm/erbium-verif-schema-{}.sqlite", std::process::id());
+        let _ = std::fs::remove_file(&path);
+        let made = (|| -> Result<String, String> {
+            let conn = pool::rusqlite::Connection::open(&path).map_err(|e| e.to_string())?;
+            let p = pool::Pool::verif_with_conn(conn).map_err(|e| e.to_string())?;
+            drop(p);
+            let conn = pool::rusqlite::Connection::open(&path).map_err(|e| e.to_string())?;
+            let mut sql = String::new();
+            {
+                let mut st = conn.prepare("SELECT sql FROM sqlite_master WHERE sql IS NOT NULL ORDER BY rowid").map_err(|e| e.to_string())?;
+                let rows = st.query_map([], |r| r.get::<_, String>(0)).map_err(|e| e.to_string())?;
+                for r in rows {
+                    sql.push_str(&r.map_err(|e| e.to_string())?);
+                    sql.push_str(";\n");
+                }
+                let mut st = conn.prepare("SELECT key, version FROM schema_version").map_err(|e| e.to_string())?;
+                let rows = st.query_map([], |r| Ok((r.get::<_, String>(0)?, r.get::<_, i64>(1)?))).map_err(|e| e.to_string())?;
+                for r in rows {
+                    let (k, v) = r.map_err(|e| e.to_string())?;
+                    sql.push_str(&format!("INSERT INTO schema_version (key, version) VALUES ('{}', {v});\n", k.replace('\'', "''")));
+                }
+            }
+            Ok(sql)
+        })();
+        for suffix in ["", "-journal", "-wal", "-shm"] {
+            let _ = std::fs::remove_file(format!("{path}{suffix}"));
+        }
+        match made {
+            Ok(sql) if sql.contains("leases") => sql,
+            _ => SCHEMA_V1.to_string(),
+        }
+    })
+}
+
+pub fn real_schema_is_harness_copy() -> bool {
+    // statement by statement, ignoring white space, letter case and the order of the statements
+    let norm = |s: &str| {
+        let mut v: Vec<String> = s
+            .split(';')
+            .map(|st| st.split_whitespace().collect::<Vec<_>>().join(" ").replace("( ", "(").replace(" )", ")").to_lowercase())
+            .filter(|st| !st.is_empty())
+            .collect();
+        v.sort();
+        v
+    };
+    norm(real_schema()) == norm(SCHEMA_V1)
+}
+
+fn insert_rows(conn: &pool::rusqlite::Connection, state: &State, now: i64, with_options: bool) -> Result<(), String> {
+    let sql = if with_options {
+        "INSERT INTO leases (address, clientid, start, expiry, options) VALUES (?1, ?2, ?3, ?4, x'ff')"
+    } else {
+        "INSERT INTO leases (address, clientid, start, expiry) VALUES (?1, ?2, ?3, ?4)"
+    };
+    let mut st = conn.prepare(sql).map_err(|e| e.to_string())?;
+    for r in state {
+        st.execute(pool::rusqlite::params![r.ip.to_string(), r.client, now + r.start, now + r.expiry]).map_err(|e| e.to_string())?;
+    }
+    Ok(())
+}
+
 /// Build a real Pool whose table holds exactly `state` (absolute times = now + rel).
 pub fn pool_from_state(state: &State, now: i64) -> Result<pool::Pool, String> {
     let conn = pool::rusqlite::Connection::open_in_memory().map_err(|e| e.to_string())?;
-    conn.execute_batch(SCHEMA_V1).map_err(|e| e.to_string())?;
-    {
-        let mut st = conn
-            .prepare("INSERT INTO leases (address, clientid, start, expiry, options) VALUES (?1, ?2, ?3, ?4, x'ff')")
-            .map_err(|e| e.to_string())?;
-        for r in state {
-            st.execute(pool::rusqlite::params![r.ip.to_string(), r.client, now + r.start, now + r.expiry])
-                .map_err(|e| e.to_string())?;
-        }
-    }
+    conn.execute_batch(real_schema()).map_err(|e| e.to_string())?;
+    insert_rows(&conn, state, now, true)?;
+    pool::Pool::verif_with_conn(conn).map_err(|e| e.to_string())
+}
+
+/// The same rows in a store written by the previous release, opened (and thereby upgraded) by the
+/// code under test.
+pub fn pool_from_state_v0(state: &State, now: i64) -> Result<pool::Pool, String> {
+    let conn = pool::rusqlite::Connection::open_in_memory().map_err(|e| e.to_string())?;
+    conn.execute_batch(SCHEMA_V0).map_err(|e| e.to_string())?;
+    insert_rows(&conn, state, now, false)?;
     pool::Pool::verif_with_conn(conn).map_err(|e| e.to_string())
 }
 
@@ -667,12 +752,12 @@ pub fn judge(pre: &State, m: &MsgOp, res: &StepResult, post: &State, cfgs: &[Cfg
                 }
             }
             // ---- C01: never lease an address held by a different client
-            match find(post, x) {
-                Some(pr) if pr.client == me => {}
-                other => out.push(j("C01", "post-row-owner", format!("reply gave {x} to {} but the stored row is {:?}", c.name, other))),
+            // (a store may hold several rows for one address if its key is broken: look at all of them)
+            if !post.iter().any(|pr| pr.ip == x && pr.client == me) {
+                out.push(j("C01", "post-row-owner", format!("reply gave {x} to {} but the stored row is {:?}", c.name, find(post, x))));
             }
-            if let Some(prev) = find(pre, x) {
-                if prev.client != me && prev.expiry > 0 {
+            if let Some(prev) = pre.iter().find(|r| r.ip == x && r.client != me && r.expiry > 0) {
+                {
                     out.push(j(
                         "C01",
                         "double-lease",
@@ -1177,9 +1262,15 @@ fn res_sig(r: &StepResult) -> String {
 
 /// Run one history on one long-lived Pool.  Returns (message steps executed, findings).
 pub fn run_longlived(initial: &State, ops: &[&Op], cfgs: &[Cfg], differential: bool, verbose: bool) -> Result<(u64, Vec<Found>), String> {
+    run_longlived_born(initial, ops, cfgs, differential, verbose, false)
+}
+
+/// `born_v0`: the store was written by the previous release and is upgraded when this history's
+/// server opens it.
+pub fn run_longlived_born(initial: &State, ops: &[&Op], cfgs: &[Cfg], differential: bool, verbose: bool, born_v0: bool) -> Result<(u64, Vec<Found>), String> {
     let mut now = NOW0;
     clock::set_secs(now as u64);
-    let mut p = pool_from_state(initial, now)?;
+    let mut p = if born_v0 { pool_from_state_v0(initial, now)? } else { pool_from_state(initial, now)? };
     let mut out = vec![];
     let mut n = 0;
     for (k, op) in ops.iter().enumerate() {
@@ -1199,10 +1290,13 @@ pub fn run_longlived(initial: &State, ops: &[&Op], cfgs: &[Cfg], differential: b
                 let mk_case = || {
                     let mut c = case_json_from(initial, &ops[..=k], cfgs);
                     c["long_lived"] = json!(true);
+                    if born_v0 {
+                        c["born"] = json!("v0");
+                    }
                     c
                 };
                 for jd in judge(&pre, m, &res, &post, cfgs) {
-                    let mut v = Violation::new(jd.oracle, format!("on a long-lived store, step {k}: {}", jd.what), mk_case());
+                    let mut v = Violation::new(jd.oracle, format!("on a long-lived store{}, step {k}: {}", if born_v0 { " upgraded from the previous release's format" } else { "" }, jd.what), mk_case());
                     for (kk, val) in jd.sig {
                         v = v.sig(kk, val);
                     }
@@ -1214,7 +1308,9 @@ pub fn run_longlived(initial: &State, ops: &[&Op], cfgs: &[Cfg], differential: b
                 }
                 // restart differential: the same message on a Pool rebuilt from the rows
                 // (at the same absolute time, so no time-shift argument is needed here)
-                let mut pf = pool_from_state(&pre, now)?;
+                // (rows that a keyed table cannot hold -- two for one address -- cannot be rebuilt: the
+                // step oracles above are what judges such a store)
+                let Ok(mut pf) = pool_from_state(&pre, now) else { continue };
                 let res_f = run_msg(&mut pf, m, cfgs);
                 let post_f = read_state(&mut pf, now)?;
                 if res_sig(&res) != res_sig(&res_f) || post != post_f {
@@ -1236,6 +1332,10 @@ pub fn run_longlived(initial: &State, ops: &[&Op], cfgs: &[Cfg], differential: b
 
 /// Every history of exactly `depth` operations (so every shorter one as a prefix) from every root.
 pub fn longlived_histories(cfgs: &[Cfg], alpha: &Alphabet, roots: &[State], depth: u32, differential: bool) -> Result<(LongStats, Vec<Found>), String> {
+    longlived_histories_born(cfgs, alpha, roots, depth, differential, false)
+}
+
+pub fn longlived_histories_born(cfgs: &[Cfg], alpha: &Alphabet, roots: &[State], depth: u32, differential: bool, born_v0: bool) -> Result<(LongStats, Vec<Found>), String> {
     use rayon::prelude::*;
     let n = alpha.ops.len();
     // shard by (root, first op)
@@ -1252,7 +1352,7 @@ pub fn longlived_histories(cfgs: &[Cfg], alpha: &Alphabet, roots: &[State], dept
                 hist.truncate(1);
                 hist.extend(idx.iter().copied());
                 let ops: Vec<&Op> = hist.iter().map(|i| &alpha.ops[*i]).collect();
-                let (k, fs) = run_longlived(&roots[*ri], &ops, cfgs, differential, false)?;
+                let (k, fs) = run_longlived_born(&roots[*ri], &ops, cfgs, differential, false, born_v0)?;
                 histories += 1;
                 steps += k;
                 for f in fs {
@@ -1333,7 +1433,7 @@ pub fn replay_case(case: &Value, cfgs: &[Cfg]) -> Result<Vec<Found>, String> {
     if case["long_lived"].as_bool() == Some(true) {
         let parsed: Vec<Op> = ops.iter().map(|o| op_from_json(o, cfgs)).collect::<Result<_, _>>()?;
         let refs: Vec<&Op> = parsed.iter().collect();
-        let (_, found) = run_longlived(&st, &refs, cfgs, true, true)?;
+        let (_, found) = run_longlived_born(&st, &refs, cfgs, true, true, case["born"].as_str() == Some("v0"))?;
         clock::unset();
         return Ok(found);
     }
